@@ -30,7 +30,7 @@ class InitProbe(tc.TopoProbe):
 
 
 def prepare(case, given):
-    b = tc.build(case, given=given, defaults_distinct=True)
+    b = tc.build(case, given=given, defaults_distinct=True, extra='noglob')
     # glob sub-variables share one schema, hence one default
     globs = {p['name'] for p in case['ports'] if p['kind'] in ('glob', 'glob2')}
     for x in b.variables:
@@ -66,6 +66,9 @@ def check_build(rep, case, build, entry='engine'):
             sub = sub['pool']['*']
         for v in sub:
             sub[v]['_default'] = GLOB_DEFAULT
+        # a second sub-variable that no initial state ever names: every child
+        # of the glob store must hold its default
+        sub['zz'] = {'_default': 77, '_emit': True}
     # the process's own initial_state(): the initial value of every node, per variable
     own = {}
     for x in b.variables:
@@ -86,6 +89,12 @@ def check_build(rep, case, build, entry='engine'):
                            display_info=False, emitter='null').state
         elif entry == 'generate_state':
             state = generate_state(b.processes, b.topology, copy.deepcopy(b.initial_state))
+        elif entry == 'engine_store':
+            # the third entry point: a store built without any state, the state
+            # handed to the engine
+            store = generate_state(b.processes, b.topology, {})
+            state = Engine(store=store, initial_state=copy.deepcopy(b.initial_state),
+                           display_info=False, emitter='null').state
         else:
             # the composite's own state names the given nodes with values that
             # differ from what the process itself would give them
@@ -106,6 +115,12 @@ def check_build(rep, case, build, entry='engine'):
     if state is not None:
         got = tc.flatten(state.get_value())
         bad = {str(n): (got.get(n, 'MISSING'), v) for n, v in exp.items() if got.get(n, 'MISSING') != v}
+        for x in b.variables:
+            port = next(p for p in case['ports'] if p['name'] == x['port'])
+            if port['kind'] in ('glob', 'glob2') and port['t'] == 'path':
+                zz = tuple(x['node'][:-1]) + ('zz',)
+                if got.get(zz, 'MISSING') != 77:
+                    bad[str(zz)] = (got.get(zz, 'MISSING'), 77)
         if bad:
             rep.violation(sig, 'C15 (%s) nodes hold (got, expected) %s; case %s given %s'
                           % (entry, bad, tc.case_id(case), sorted(given)),
@@ -239,7 +254,7 @@ def run(rep, tier, scratch, only=None):
         if only and tc.case_id(c) != only:
             continue
         for bld in c['builds']:
-            for entry in ('engine', 'generate_state'):
+            for entry in ('engine', 'generate_state', 'engine_store'):
                 check_build(rep, c, bld, entry)
             check_build(rep, c, bld, 'composite')
             if 0 < len(tc.seq(bld['given'])) < len(bld['vals']):
